@@ -330,7 +330,7 @@ Print Assumptions C11_test_sequencing.
    and command letter of the query just sent, is a prompt reply, and the downstream test evaluates to true on it *)
 Definition ex_y_reply : list N := [0; 0; 132; 0; 0; 1; 0; 1; 0; 0; 0; 0; 5; 121; 97; 97; 97; 113; 1; 116; 7; 101; 120; 97; 109; 112; 108; 101; 3; 99; 111; 109; 0; 0; 10; 0; 1; 192; 12; 0; 10; 0; 1; 0; 0; 0; 0; 0; 48; 0; 0; 0; 0; 255; 255; 255; 255; 85; 85; 85; 85; 170; 170; 170; 170; 129; 99; 200; 210; 199; 124; 178; 23; 95; 79; 206; 201; 73; 45; 82; 33; 97; 169; 113; 32; 37; 179; 6; 115; 230; 216; 68; 48; 121; 80; 87; 191]%N.
 Example ex_prompt_reply :
-  let s0 := hs_init 1000 16 0%Z 0%Z true 32 [] in
+  let s0 := hs_init 1000 16 0%Z 0%Z true 32 [] [] in
   prompt_reply s0 121 89 cap_full (ID 2 ex_y_reply) src_DOWNCODECCHECK1 /\
   hs_downenctest s0 [ID 2 ex_y_reply; IT] = (true, send 121 s0, [IT]).
 Proof.
